@@ -48,9 +48,9 @@ func planFor(prop, tier string) plan {
 		return plan{runs: q(20000), batch: 1, detSample: 32, watchdog: "60s"}
 	case "C16":
 		if thorough {
-			return plan{batch: 16, race: true, secs: secs, extraSecs: secs / 2, detSample: 48, watchdog: "180s"}
+			return plan{batch: 8, race: true, secs: secs, extraSecs: secs / 2, detSample: 48, watchdog: "180s"}
 		}
-		return plan{runs: q(3200), batch: 16, race: true, detSample: 6, watchdog: "60s"}
+		return plan{runs: q(3200), batch: 8, race: true, detSample: 6, watchdog: "60s"}
 	case "C19":
 		if thorough {
 			return plan{batch: 100, secs: secs, detSample: 48, watchdog: "180s"}
